@@ -487,6 +487,13 @@ def check_frontmatter_flow(ctx: Ctx) -> None:
         raise AnalysisError("fill_markdown no longer unpacks split_frontmatter into (frontmatter, content)")
     # The function is evaluated twice, assuming the frontmatter to be present / absent (a presence test may be spelled
     # `if frontmatter`, `bool(frontmatter)`, a named temporary ...). F, C and TEXT stand for the two halves and the input.
+    sf_ = repo.functions.get(sfq)
+    f_is_str = sf_ is not None and sf_.node.returns is not None and norm(sf_.node.returns).replace(" ", "") in ("tuple[str,str]", "Tuple[str,str]")
+
+    class _E(str):
+        pass
+    _EMPTY = _E("")
+
     def mk(present: bool) -> Decider:
         def atom(leaf: ast.AST, aliases: frozenset) -> bool | None:
             if "F" in role_of(leaf, aliases):
@@ -504,6 +511,8 @@ def check_frontmatter_flow(ctx: Ctx) -> None:
 
         def value_leaf(cur: FuncInfo, e: ast.AST, aliases: frozenset):
             roles = role_of(e, aliases)
+            if "F" in roles and not present and f_is_str:
+                return _EMPTY  # a str that is falsy is the empty string: `frontmatter + x` is x when there is none
             for r in ("F", "C", "TEXT"):
                 if r in roles:
                     return r
